@@ -261,7 +261,108 @@ def _queries(rng, tree, k):
     return out
 
 
+# hand-written modules in which a nested scope repeats an EARLIER scope (same class names, same member names): a
+# settings class used on its own and again inside an application class, two / three classes deep
+DEEP = [
+    "class Options:\n    verbose: bool = False\n    class Net:\n        port: int = 80\n        host = 'a'\n"
+    "        def bind(self, host: str, port: int = 80, *, retry: int = 1):\n            return port\n"
+    "class App:\n    verbose: bool = True\n    class Options:\n        verbose: bool = True\n        class Net:\n"
+    "            port: int = 8080\n            host = 'b'\n"
+    "            def bind(self, host: str, port: int = 8080, *, retry: int = 3):\n                return port\n"
+    "    class Net:\n        port: int = 1\n",
+    "def make(level: int = 0):\n    return level\nclass Level:\n    level: int = 1\n    def set(self, level: int):\n        pass\n"
+    "class Log:\n    class Level:\n        level: int = 2\n        def set(self, level: int):\n            pass\n"
+    "    class File:\n        class Level:\n            level: int = 3\n            def set(self, level: int):\n                pass\n"
+    "level: int = 4\n",
+]
+
+
+def _nested_classes(tree):
+    """[(path, ClassDef, index of its top-level ancestor)] of the classes that sit inside a class (inside a class ...)"""
+    out = []
+
+    def rec(node, path, top):
+        for j, s in enumerate(node.body):
+            if isinstance(s, ast.ClassDef):
+                t = j if top is None else top
+                if path:
+                    out.append((path + [s.name], s, t))
+                rec(s, path + [s.name], t)
+    rec(tree, [], None)
+    return out
+
+
+def echo_scopes(rng, src):
+    """src with one of its nested classes (C.D, C.D.E) defined once more in an EARLIER scope of the module: on its own at
+    module level, or wrapped in a class named like its parent (D, or C.D for C.D.E, or X.D.E), before the definition it
+    repeats or inside an earlier top-level class.  The members keep their names; half of the time their values differ.
+    So the last two / three segments of a deep location also name something earlier in the file.
+    -> (text, path of the repeated class) or (src, None) when the module has no nested class / the names are taken"""
+    try:
+        tree = ast.parse(src)
+    except SyntaxError:
+        return src, None
+    nested = _nested_classes(tree)
+    if not nested:
+        return src, None
+    deepest = max(len(p) for p, _, _ in nested)
+    path, node, top = rng.choice([c for c in nested if len(c[0]) == deepest] if rng.random() < 0.6 else nested)
+    twin = copy.deepcopy(node)
+    # (a docstring of several lines is indented for the depth it was written at: the copy, which sits at another depth,
+    # keeps the first line - how a formatter re-indents docstrings is not the subject here)
+    for s in ast.walk(twin):
+        b = getattr(s, "body", None)
+        if isinstance(s, (ast.ClassDef, ast.FunctionDef)) and b and isinstance(b[0], ast.Expr) \
+                and isinstance(b[0].value, ast.Constant) and isinstance(b[0].value.value, str) and "\n" in b[0].value.value:
+            b[0].value = ast.Constant(value=b[0].value.value.split("\n")[0])
+    if rng.random() < 0.5:
+        for s in ast.walk(twin):
+            if isinstance(s, (ast.AnnAssign, ast.Assign)) and isinstance(getattr(s, "value", None), ast.Constant) \
+                    and isinstance(s.value.value, (int, float)) and not isinstance(s.value.value, bool):
+                s.value = ast.Constant(value=s.value.value + rng.randint(1, 9))
+    if rng.random() < 0.45:
+        twin = ast.ClassDef(name=path[-2], bases=[], keywords=[], body=[twin], decorator_list=[])
+        if hasattr(ast, "TypeVar"):
+            twin.type_params = []
+    # where: module level, at or before the top-level ancestor (after a leading docstring / imports); or the end of an
+    # earlier top-level class
+    lo = 0
+    while lo < len(tree.body) and (isinstance(tree.body[lo], (ast.Import, ast.ImportFrom)) or (
+            lo == 0 and isinstance(tree.body[0], ast.Expr) and isinstance(tree.body[0].value, ast.Constant))):
+        lo += 1
+    earlier = [s for s in tree.body[:top] if isinstance(s, ast.ClassDef)]
+    if earlier and rng.random() < 0.3:
+        host = rng.choice(earlier)
+        if any(nm == twin.name for nm, _ in GM._members(host)):
+            return src, None
+        host.body.append(twin)
+    else:
+        if any(nm == twin.name for nm, _ in GM._members(tree)):
+            return src, None
+        tree.body.insert(rng.randint(min(lo, top), top), twin)
+    try:
+        text = ast.unparse(ast.fix_missing_locations(tree)) + "\n"
+        ast.parse(text)
+    except Exception:  # noqa
+        return src, None
+    return text, path
+
+
+def deep_module(rng, max_items=None):
+    """a module three classes deep in which a nested scope repeats an earlier one -> (text, kind)"""
+    if rng.random() < 0.12:
+        return rng.choice(DEEP), "deep-special"
+    for _ in range(40):
+        src = GM.gen_module(rng, depth=3, max_items=max_items or rng.choice([6, 8, 10]))
+        text, path = echo_scopes(rng, src)
+        if path is not None:
+            return text, "deep-echo"
+    return rng.choice(DEEP), "deep-special"
+
+
 def _module(rng, tier):
+    if rng.random() < 0.1:
+        return deep_module(rng)
     if rng.random() < 0.12:
         return rng.choice(SPECIAL), "special"
     depth = rng.choice([1, 2, 2, 3]) if tier == "quick" else rng.choice([1, 2, 3, 4, 5])
